@@ -515,6 +515,51 @@ Definition hyp_c17 (p : tg_pair) : bool :=
   hyp_coincidence_free (tp_a p) && hyp_coincidence_free (tp_b p) &&
   (if String.eqb (tp_kind p) "retain" then settings_valid (tp_a p) && settings_valid (tp_b p) else true).
 
+(** C17, de-duplication under renumbering: [ensure_unique_type_paths] on the renumbered registry has
+    the same outcome kind and forms the same shape groups: two entries of b get one path iff the
+    entries of a they come from do, and an entry of b is renamed iff its original is.  (The digit a
+    group receives follows the order of first appearance and is NOT invariant; nothing is demanded
+    of it.)  No hypothesis: the families that de-duplication renames are exactly the ones that are
+    not skeleton-consistent.  Where the verdict of [types_equal] depends on the order of the
+    entries the failure is attributed to F3 (unsound) / F18 (incomplete) by [known_F3_groups] /
+    [known_F18_groups]. *)
+Definition prop_dedup_groups_raw (p : tg_pair) : bool :=
+  if String.eqb (tp_kind p) "renumbered" then
+    match tg_dedup (tp_a p), tg_dedup (tp_b p) with
+    | OOk pa, OOk pb =>
+        let orig_a := reg_paths (tg_reg (tp_a p)) in
+        let orig_b := reg_paths (tg_reg (tp_b p)) in
+        let pick (l : list (list string)) (j : N) := nth (N.to_nat j) l [] in
+        let qa := map (pick pa) (tp_perm p) in          (* a's new paths in b's order *)
+        let qo := map (pick orig_a) (tp_perm p) in      (* a's old paths in b's order *)
+        Nat.eqb (List.length pb) (List.length qa) &&
+        list_eqb path_eqb qo orig_b &&
+        (* renamed iff renamed *)
+        list_eqb Bool.eqb (map (fun xy => path_eqb (fst xy) (snd xy)) (combine qa qo))
+                          (map (fun xy => path_eqb (fst xy) (snd xy)) (combine pb orig_b)) &&
+        (* same partition of every family (entries with one original path); new paths of
+           different families may coincide (F4) and are not compared *)
+        forallb (fun x : (list string * list string) * list string =>
+                   let '(xa, xb, xo) := x in
+                   list_eqb Bool.eqb
+                     (map (fun yo : list string * list string => path_eqb xo (snd yo) && path_eqb xa (fst yo)) (combine qa qo))
+                     (map (fun yo : list string * list string => path_eqb xo (snd yo) && path_eqb xb (fst yo)) (combine pb orig_b)))
+                (combine (combine qa pb) qo)
+    | OErr k _ _, OErr k' _ _ => String.eqb k k'
+    | OPanic, OPanic => true
+    | _, _ => false
+    end
+  else true.
+
+Definition hyp_dedup_renames (p : tg_pair) : bool :=
+  String.eqb (tp_kind p) "renumbered" &&
+  match tg_dedup (tp_a p) with
+  | OOk pa => negb (list_eqb path_eqb pa (reg_paths (tg_reg (tp_a p))))
+  | _ => false
+  end.
+
+Definition prop_dedup_groups (p : tg_pair) : bool := prop_dedup_groups_raw p.
+
 Definition prop_same_tokens (p : tg_pair) : bool :=
   if String.eqb (tp_kind p) "same" then
     obs_tokens_eqb (tg_gen (tp_a p)) (tg_gen (tp_b p))
@@ -745,6 +790,57 @@ Definition te_incomplete_case (c : tg_case) : bool :=
                         | Ok false, Some a, Some b => tokens_eqb a b
                         | _, _, _ => false
                         end) (combine (ids_of r) r)) (combine (ids_of r) r).
+
+(** F18 seen by the de-duplication clause: skeleton-equal members judged different in one of the
+    two orders, so the family is split in one registry and not in the other *)
+(** de-duplication does not look at the settings: every namespaced entry takes part, substituted
+    paths included; skeletons are taken with the substitutes removed *)
+Definition no_subs (s : settings) : settings :=
+  mk_settings (s_root s) (s_docs s) (s_dreg s) [] (s_bits s) (s_compact_as s) (s_compact s)
+              (s_codec s) (s_alloc s).
+Definition te_incomplete_reg (c : tg_case) : bool :=
+  let r := tg_reg c in
+  let s := no_subs (settings_of (tg_spec c)) in
+  let named (t : ty) := match namespace (t_path t) with [] => false | _ => true end in
+  existsb (fun ix : N * (N * ty) =>
+             named (snd (snd ix)) &&
+             existsb (fun iy : N * (N * ty) =>
+                        named (snd (snd iy)) &&
+                        path_eqb (t_path (snd (snd ix))) (t_path (snd (snd iy))) &&
+                        negb (N.eqb (fst ix) (fst iy)) &&
+                        match types_equal_res r (fst ix) (fst iy),
+                              skeleton_tokens r s (snd (snd ix)), skeleton_tokens r s (snd (snd iy)) with
+                        | Ok false, Some a, Some b => tokens_eqb a b
+                        | _, _, _ => false
+                        end) (combine (ids_of r) r)) (combine (ids_of r) r).
+(** F3 seen by the de-duplication clause: in one of the two registries a same-path pair with
+    DIFFERENT skeletons is judged equal, and one of the recorded shortcuts decided it *)
+Definition te_unsound_reg (c : tg_case) : bool :=
+  let r := tg_reg c in
+  let s := no_subs (settings_of (tg_spec c)) in
+  let named (t : ty) := match namespace (t_path t) with [] => false | _ => true end in
+  existsb (fun ix : N * (N * ty) =>
+             named (snd (snd ix)) &&
+             existsb (fun iy : N * (N * ty) =>
+                        named (snd (snd iy)) &&
+                        path_eqb (t_path (snd (snd ix))) (t_path (snd (snd iy))) &&
+                        negb (N.eqb (fst ix) (fst iy)) &&
+                        match skeleton_tokens r s (snd (snd ix)), skeleton_tokens r s (snd (snd iy)) with
+                        | Some a, Some b =>
+                            negb (tokens_eqb a b) &&
+                            match types_equal_traced r (fst ix) (fst iy) with
+                            | Ok (true, hits) => N.ltb 0 hits
+                            | _ => false
+                            end
+                        | _, _ => false
+                        end) (combine (ids_of r) r)) (combine (ids_of r) r).
+Definition known_F3_groups (p : tg_pair) : bool :=
+  String.eqb (tp_kind p) "renumbered" &&
+  (te_unsound_reg (tp_a p) || te_unsound_reg (tp_b p)).
+
+Definition known_F18_groups (p : tg_pair) : bool :=
+  String.eqb (tp_kind p) "renumbered" &&
+  (te_incomplete_reg (tp_a p) || te_incomplete_reg (tp_b p)).
 
 Definition known_F18 (p : tg_pair) : bool :=
   (te_incomplete_case (tp_a p) || te_incomplete_case (tp_b p)) &&
